@@ -1,6 +1,6 @@
 """C01 compiled SQL returns the relation the pipeline denotes."""
 import json, random
-import anchortrace, preptrace, grouptake
+import anchortrace, preptrace, grouptake, appendshapes, postrace
 import vlib, relgen, relcheck
 
 MANIFEST = dict(
@@ -139,6 +139,8 @@ def run(ctx):
     nbad += explore(ctx, "const-join-generic", None, 0, SAFE, "sql.generic", cases=cj)
     # `group K (take 1)` followed by row-wise transforms: the answer must be one of the admissible results (one row per group)
     nbad += grouptake.run(ctx)
+    # set operations whose top input is pruned / reordered around them (chained derives, reordering selects, double appends)
+    nbad += appendshapes.run(ctx)
     nbad += explore(ctx, "safe", random.Random(20240924), 500 if quick else 3000, SAFE, "sql.sqlite")
     nbad += explore(ctx, "safe-generic", random.Random(20240925), 200 if quick else 1500, SAFE, "sql.generic")
     nbad += explore(ctx, "literals+functions", random.Random(20240926), 250 if quick else 2000, RICH, "sql.sqlite")
@@ -155,6 +157,9 @@ def run(ctx):
         # (declared and undeclared tables; sqlite / mssql: no EXCEPT ALL, postgres / duckdb: DISTINCT ON, generic: everything)
         sprogs = DIRECTED_STAGE_PROGRAMS + [c.prql for c in setop] + [c.prql for c in relgen.setop_cases(UNDECL, seed=22)] + [c.prql for c in shaped[:300 if quick else 1500]] + tprogs[:400 if quick else 2500]
         n_st, n_stbad, _ = preptrace.run_suite(ctx, sprogs, "stages", targets=("sql.sqlite", "sql.generic", "sql.postgres", "sql.mssql", "sql.duckdb"))
+        n_pm, n_pmbad, _ = postrace.run_suite(ctx, [p_["prql"] for p_ in appendshapes.programs()] + sprogs[:600 if quick else 3000], "positional", targets=("sql.sqlite", "sql.postgres"))
+        ctx.obligation("correspondence: the positional mapper (compute_positional_mappings, compute_and_store_mapping, activate_mapping, apply_active_mapping) = Model.Positional on every recorded call",
+                       n_pmbad == 0 and n_pm > 0, f"{n_pm} recorded calls replayed, {n_pmbad} differ")
         ctx.obligation("correspondence: preprocess::{distinct, union, except, intersect} = Model.Preprocess on every recorded stage call",
                        n_stbad == 0 and n_st > 0, f"{n_st} recorded stage calls replayed, {n_stbad} differ")
     else:
